@@ -19,6 +19,7 @@ for v in FMT:
     PROGRAMS.append(dict(program='roundtrip', cls='FormatField', tags=('C01',), variant=v))
 PROGRAMS.append(dict(program='roundtrip_list', cls='Array', tags=('C01',)))
 PROGRAMS.append(dict(program='roundtrip_list', cls='Sequence', tags=('C01',)))
+PROGRAMS.append(dict(program='roundtrip_struct', cls='Struct', tags=('C01',)))
 for c in CANONICAL:
     PROGRAMS.append(dict(program='canonical', cls=c, tags=('C02',)))
 for v in FMT:
@@ -73,7 +74,19 @@ def _seq_domain(eng, st):
     st.assume(t.or_(t.app('(_ is VNone)', t.BOOL, v), t.and_(t.app('dyn_sized', t.BOOL, v), t.app('(_ is VOpq)', t.BOOL, v))))
 
 
-DOMAIN = {'Sequence': _seq_domain, 'Array': _list_domain, 'Bytes': _bytes_domain, 'GreedyBytes': _bytes_domain, 'Flag': _flag_domain, 'Pass': _none_domain}
+def _struct_domain(eng, st):
+    """value domain of Struct: None or an existing mapping; hypotheses about the member list: names pairwise distinct, none of them
+    a structural scope entry"""
+    from .unions import _names_distinct
+    if 'obj' not in st.env:
+        return
+    v = st.env['obj'].t
+    st.assume(t.or_(t.app('(_ is VNone)', t.BOOL, v), t.and_(t.app('(_ is VRef)', t.BOOL, v), t.le(t.ZERO, t.app('ref', t.INT, v)), t.lt(t.app('ref', t.INT, v), st.ghost['alloc']))))
+    sl = st.env['self'].fields['subcons'].ident
+    st.assume(_names_distinct(sl, t.app('sl_len', t.INT, sl)))
+
+
+DOMAIN = {'Struct': _struct_domain, 'Sequence': _seq_domain, 'Array': _list_domain, 'Bytes': _bytes_domain, 'GreedyBytes': _bytes_domain, 'Flag': _flag_domain, 'Pass': _none_domain}
 HYPOTHESES = [
     'C02 only - length and count fields: the field that encoded the parsed length also encodes every smaller non-negative length, in no more bytes',
     'C02 only - the canonical encoding a sub-construct builds for a value it parsed is not longer than the bytes it parsed it from (re-established for every class by an assertion of the canonical program; it does NOT hold for NullTerminated(require=False), see known findings)',
@@ -141,7 +154,8 @@ def _lazyarray_domain(eng, st):
 
 
 DOMAIN['LazyArray'] = _lazyarray_domain
-HYPOTHESES += ['C02, BitsInteger only - the input is a stream of bits (every byte 0 or 1, as inside Bitwise) and the field is not byte-swapped',
+HYPOTHESES += ['C01, Struct only - member names are pairwise distinct and none is a structural scope entry; a sub-construct call changes its context at most at _index and leaves other existing containers untouched (interface frame, proved of every construct method by the C17 contract); no member refuses to build with StopFieldError',
+               'C02, BitsInteger only - the input is a stream of bits (every byte 0 or 1, as inside Bitwise) and the field is not byte-swapped',
                'C01, Sequence only - no member refuses to build with StopFieldError (a StopIf inside the member list ends the build early; whether the shortened output parses back depends on the condition the user wrote)',
                'C16 only - no cross references: parsing an element and asking its actual size give the same answers in every scope',
                'C16 only - measured is parsed: when _actualsize answers n and the parse succeeds, the parse advances by exactly n',
